@@ -138,7 +138,9 @@ func c01ConfiguredKeyIsTheMacKey(c *Ctx) {
 		c.Check(ok && bound, rule, v.Name()+":factory-uses-the-configured-key", an.Pos(),
 			"the MAC factory calls InitMac on the captured key parameter itself (one call, captured variable bound to the parameter only)")
 	}
-	c.Min("SetKey:mac-factory-closures", n, 1)
+	if n == 0 {
+		c.Fail(rule, v.Name()+":factory-uses-the-configured-key", v.Fn.Pos(), "no closure of SetKey calls InitMac: the factory does not build a MAC from the key per call")
+	}
 }
 
 // C08, the representation invariant that the audited accessors of PacketAuthOption
